@@ -14,6 +14,18 @@ func (c *checker) replay() {
 		fmt.Println("cannot read replay:", err)
 		os.Exit(3)
 	}
+	if rec.Family == familyHF && (rec.Mode == "test" || rec.Mode == "test-chunk" || rec.Mode == "block") {
+		hw, err := buildWorldHF(false, 0, true)
+		if err == nil {
+			c.drain()
+			c, err = newHFChecker(c, hw)
+		}
+		if err != nil {
+			fmt.Println("replay:", err)
+			os.Exit(3)
+		}
+		defer c.drain()
+	}
 	execs := 0
 	for i := 0; i < 5; i++ {
 		var what, detail []string
@@ -65,6 +77,8 @@ func (c *checker) replay() {
 			}
 		case "alias":
 			what, detail, err = c.replayAlias(&rec)
+		case "escape":
+			what, detail, err = c.replayEscape(&rec)
 		case "multi":
 			var blocks [][]string
 			for _, b := range append(append([]string{}, rec.History...), rec.Prog) {
